@@ -108,6 +108,20 @@ def eval_spec_value(self, text, env):
     self.spec_mode = saved
 
 
+def ghost_written(self, body):
+  """ghost state boxes written by summaries called in `body` (spec.ghost_writers: callee name -> box name)"""
+  gw = getattr(self.spec, 'ghost_writers', None) or {}
+  out = set()
+  if gw:
+    for st in body:
+      for n in ast.walk(st):
+        if isinstance(n, ast.Call):
+          nm = n.func.id if isinstance(n.func, ast.Name) else (n.func.attr if isinstance(n.func, ast.Attribute) else None)
+          if nm in gw:
+            out.add(gw[nm])
+  return out
+
+
 def havoc(self, names, env):
   for nm in sorted(names):
     try:
@@ -197,7 +211,7 @@ def s_For(self, st, env):
     raise OutsideSubset(f'loop #{lid} (line {st.lineno}) has no invariant in the sidecar')
   seqv = None
   n = it.length
-  mod = assigned_names(st.body) | assigned_names([ast.Expr(st.target)]) | target_names(st.target)
+  mod = assigned_names(st.body) | assigned_names([ast.Expr(st.target)]) | target_names(st.target) | ghost_written(self, st.body)
   mod |= set(self.spec.loop_modifies.get(lid, ())) if getattr(self.spec, 'loop_modifies', None) else set()
   ghost = {'_k': SV(INT, z3.IntVal(0)), f'_k{lid}': SV(INT, z3.IntVal(0)), '_n': SV(INT, n), f'_n{lid}': SV(INT, n)}
   if it.elem_sort is not None:
@@ -251,7 +265,7 @@ def s_While(self, st, env):
   if invs is None:
     raise OutsideSubset(f'while loop #{lid} (line {st.lineno}) has no invariant in the sidecar')
   dec = self.spec.while_decreases.get(lid)
-  mod = assigned_names(st.body)
+  mod = assigned_names(st.body) | ghost_written(self, st.body)
   ghost = {}
   ghost.update(pre_snapshot(self, mod, env))
   for i, g in enumerate(eval_clauses(self, invs, env, ghost)):
@@ -333,9 +347,33 @@ def comprehension(self, n, env, kind):
     self.assign(g.target, it.at(k), e)
     conds = [self.truthy(self.eval(c, e)) for c in g.ifs]
     inr = z3.And(k >= 0, k < it.length)
-    if kind in ('list', 'tuple'):
-      if conds:
-        raise OutsideSubset('filtered list comprehension over a symbolic-length iterable')
+    if kind in ('list', 'tuple') and conds:
+      # order-preserving filter: r[j] = el(idx(j)) with idx strictly increasing over exactly the
+      # positions that pass the conditions
+      el = self.eval(n.elt, e)
+      hint = self.type_hint(n)
+      if hint is None:
+        s0 = self.sort_of(el)
+        if s0 is None:
+          raise OutsideSubset('comprehension element of unknown sort')
+        hint = SeqOf(s0)
+      el = self.coerce(el, hint.elem)
+      r = hint.const('filt')
+      idx = z3.Function(fresh_name('fidx'), z3.IntSort(), z3.IntSort())
+      pos = z3.Function(fresh_name('fpos'), z3.IntSort(), z3.IntSort())
+      j, j2 = z3.Int(fresh_name('j')), z3.Int(fresh_name('j2'))
+      cond = z3.And(inr, *conds)
+      inj = z3.And(j >= 0, j < hint.len(r))
+      self.assume(hint.len(r) >= 0)
+      self.assume(hint.len(r) <= it.length)
+      body_at = lambda t: z3.substitute(z3.And(cond, hint.get(r, j) == el.t), (k, t))
+      self.assume(qforall([j], z3.Implies(inj, z3.And(body_at(idx(j)), pos(idx(j)) == j)), patterns=[hint.get(r, j)]))
+      self.assume(qforall([j, j2], z3.Implies(z3.And(inj, j2 >= 0, j2 < hint.len(r), j < j2), idx(j) < idx(j2)),
+                          patterns=[z3.MultiPattern(idx(j), idx(j2))]))
+      self.assume(qforall([k], z3.Implies(cond, z3.And(pos(k) >= 0, pos(k) < hint.len(r), idx(pos(k)) == k)), patterns=[pos(k)]))
+      res = SV(hint, r)
+      self.ghost['filter_idx'] = idx
+    elif kind in ('list', 'tuple'):
       el = self.eval(n.elt, e)
       hint = self.type_hint(n)
       if hint is None:
